@@ -7,12 +7,14 @@ import os
 import tomllib
 from abc import ABC
 from collections.abc import Callable
+from copy import copy
 from enum import Enum
 from pathlib import Path
 from typing import (
     TYPE_CHECKING,
     Annotated,
     Any,
+    ClassVar,
     TypeAlias,
     TypeVar,
     Unpack,
@@ -20,7 +22,7 @@ from typing import (
 )
 
 from pydantic import BeforeValidator, PlainSerializer
-from pydantic.fields import _FromFieldInfoInputs
+from pydantic.fields import FieldInfo, _FromFieldInfoInputs
 from pydantic_core import PydanticUndefined
 
 from gallia.config import Config
@@ -299,6 +301,7 @@ class GalliaBaseModel(BaseCommand, ABC):
     )
     _cli_group: str | None = None
     _config_section: str | None = None
+    _declared_arg_fields: ClassVar[dict[str, ArgFieldInfo]] = {}
     __config_registry: dict[str, tuple[str, Any]] = {}
 
     def __init__(self, **data: Any):
@@ -325,6 +328,10 @@ class GalliaBaseModel(BaseCommand, ABC):
 
         cls._config_section = config_section
         cls._cli_group = cli_group
+        # Remember the declared field infos, see __pydantic_init_subclass__()
+        cls._declared_arg_fields = {
+            attribute: info for attribute, info in vars(cls).items() if isinstance(info, ArgFieldInfo)
+        }
 
         for attribute, info in vars(cls).items():
             # Attribute specific annotation takes precedence
@@ -359,6 +366,30 @@ class GalliaBaseModel(BaseCommand, ABC):
                         description,
                         info.default,
                     )
+
+    @classmethod
+    def __pydantic_init_subclass__(cls, **kwargs: Any) -> None:
+        super().__pydantic_init_subclass__(**kwargs)
+
+        # pydantic >= 2.12 no longer preserves FieldInfo subclasses for fields whose annotation
+        # carries metadata (e.g. AutoInt, Ranges, Idempotent[...]); such fields end up as plain
+        # FieldInfo objects, which silently drops the CLI and config related attributes.
+        # Restore them from the declared field info.
+        for name, declared in cls._declared_arg_fields.items():
+            info = cls.model_fields.get(name)
+
+            if info is None or isinstance(info, ArgFieldInfo):
+                continue
+
+            restored = copy(declared)
+
+            for slot in FieldInfo.__slots__:
+                try:
+                    setattr(restored, slot, getattr(info, slot))
+                except AttributeError:
+                    pass
+
+            cls.model_fields[name] = restored
 
     @staticmethod
     def registry() -> dict[str, tuple[str, Any]]:
